@@ -43,6 +43,18 @@ CLAIMED = {
              "reported count per the property and the number of simultaneously active loop bodies never above it at any event (reach "
              "probe: the bound is attained).",
              design="4 (C13)", note=TRUSTED + " On the tbb/omp lanes this exercises rkcommon's use of global_control / omp_set_num_threads against the stubs' contract."),
+ "C19": dict(text="Seeded search over observer histories (create/notify/repeated notify/poll/destroy in both orders, late observers, "
+             "<= 3 observables x <= 4 observers) interleaved with 1..6 threads creating, renewing, copying and moving time stamps at every "
+             "atomic step; oracle: reference model of the per-observer pending flag, stamp values globally unique and increasing per thread, "
+             "copies equal their source, arena shadow for dangling pointers in either destruction order.",
+             design="4 (C19)", note=TRUSTED),
+ "C20": dict(text="Trace: seeded search over 0..8 recording threads registering concurrently (interleavings at the registry mutex), event "
+             "scripts with balanced nests/markers/counters, event counts 0, 1 and around the chunk size (guarded run-time knob 2/3/8, shipped "
+             "8192), simulated monotonic clock with seeded jumps, private TraceRecorder per run and the process-global free-function API "
+             "(one run per forked child); oracle: strict RFC 8259 parse of the written file and per-thread event-sequence equality. "
+             "Images: six writers x sizes 1..24 (40 thorough) incl. single row/column, input buffer of exactly w*h pixels in the shadowed "
+             "arena, file decoded by an independent reader.",
+             design="4 (C20)", note=TRUSTED + " std::ofstream / stdio file output is real (files under build/scratch). The image half has no schedule or fault dimension; it is run so the property is covered as a whole."),
 }
 
 NA = {
